@@ -30,7 +30,13 @@ def _design(rnd):
     import py4hw.logic.storage as S_
     q(S_.SynchronousMemory, s, 'mem', ra, wa, we, rd, r2)
     cnt = w('cnt', 4); q(py4hw.Counter, s, 'cnt', rs, en, cnt)
-    obs = [r1, r2, acc, rd, cnt]
+    # a second clock driver ticking on the same edge (enable tied to 1) with a register path crossing both domains
+    one = w('one'); q(py4hw.Constant, s, 'one', 1, one)
+    g1 = w('g1', 8); g2 = w('g2', 8); g3 = w('g3', 8)
+    q(py4hw.Reg, s, 'x1', a, g1)
+    mid = q(py4hw.Reg, s, 'x2', g1, g2); mid.clockDriver = py4hw.ClockDriver('gclk', base=s.clockDriver, enable=one)
+    q(py4hw.Reg, s, 'x3', g2, g3)
+    obs = [r1, r2, acc, rd, cnt, g1, g2, g3]
     return s, dict(a=a, en=en, rs=rs, we=we), obs
 
 
@@ -56,6 +62,15 @@ def permutations(seed=0, n=6, **kw):
             out.append(tuple(o.get() for o in obs)); k += 1
         return out
     base = trace(None, None)
+    if isinstance(base, list):
+        for k in range(3, len(base)):
+            want = (stim[k - 2]['a'], stim[k - 1]['a'], stim[k]['a'])
+            got = (base[k][7], base[k][6], base[k][5])
+            evals += 1
+            if got != want:
+                return bfail('edge::two-drivers-register-chain#bounded', evals, {'cycle': k}, {'g3,g2,g1': want}, {'g3,g2,g1': got}, 'Simulator._clk_cycle (two clock drivers on one edge)')
+    else:
+        return bfail('edge::prepared-left-over#bounded', evals, {}, 'empty pending list after clk', base, 'Simulator._clk_cycle')
     for it in range(n):
         t = trace(seed * 1000 + it, None); evals += 1
         if t != base:
